@@ -235,6 +235,9 @@ fn repeated_problem_text() -> BoxedStrategy<String> {
             .prop_map(move |(a, b, ql, qr, same)| {
                 if same {
                     format!("The {ql}{e}{qr} cat.")
+                } else if ql == "(" && !qr.is_empty() {
+                    // an opaque neighbour (inline code in Markdown) whose content differs
+                    format!("Call `{a}` {e} `{b}` now.")
                 } else {
                     format!("My {a} {ql}{e}{qr} {b}.")
                 }
@@ -394,13 +397,13 @@ thread_local! {
 
 fn ls_base(lang: u8) -> (&'static str, &'static str, String) {
     match lang % 4 {
-        0 => ("rust", "rs", "// This is an test of teh parser.\nfn main() {}\n\n// It could of been worse, realy, I think.\nfn other() {}\n\n// We saw the the parser at work, okay.\nfn third() {}\n".to_string()),
-        1 => ("python", "py", "# This is an test of teh parser.\ndef main():\n    pass\n\n# It could of been worse, realy, I think.\nx = 1\n\n# We saw the the parser at work, okay.\ny = 2\n".to_string()),
+        0 => ("rust", "rs", "// This is an test of teh parser.\nfn main() {}\n\n// It could of been worse, realy, I think.\nfn other() {}\n\n// We saw the the parser at work, okay.\nfn third() {}\n\n// We have a lot of work todo here, okay.\nfn fourth() {}\n".to_string()),
+        1 => ("python", "py", "# This is an test of teh parser.\ndef main():\n    pass\n\n# It could of been worse, realy, I think.\nx = 1\n\n# We saw the the parser at work, okay.\ny = 2\n\n# We have a lot of work todo here, okay.\nz = 3\n".to_string()),
         // (no lint within two characters of the start or end of its comment / paragraph: the
         // break token between two comments starts right where a comment ends; the last paragraph is clean: edits at the end of the file stay more than two characters
-        // away from every lint)
-        2 => ("plaintext", "txt", "Notes follow.\n\nThis is an test of teh parser.\n\nIt could of been worse, realy, I think.\n\nWe saw the the parser at work, okay.\n\nThe end is near.\n".to_string()),
-        _ => ("markdown", "md", "# Notes\n\nThis is an test of teh parser.\n\nIt could of been worse, realy, I think.\n\nWe saw the the parser at work, okay.\n\nThe end is near.\n".to_string()),
+        // away from every lint; `todo` carries two lints with one and the same span)
+        2 => ("plaintext", "txt", "Notes follow.\n\nThis is an test of teh parser.\n\nIt could of been worse, realy, I think.\n\nWe saw the the parser at work, okay.\n\nWe have a lot of work todo here, okay.\n\nThe end is near.\n".to_string()),
+        _ => ("markdown", "md", "# Notes\n\nThis is an test of teh parser.\n\nIt could of been worse, realy, I think.\n\nWe saw the the parser at work, okay.\n\nWe have a lot of work todo here, okay.\n\nThe end is near.\n".to_string()),
     }
 }
 
